@@ -6,6 +6,8 @@ import (
 	"fmt"
 	"strconv"
 	"strings"
+	"sync"
+	"sync/atomic"
 	"time"
 
 	"github.com/go-kit/log"
@@ -40,6 +42,12 @@ import (
 //   o.mc.flow <stored matchers ;-joined> <probed matchers ;-joined>
 //        end to end through the matchers conversion cache (GetOrSet, every matcher cacheable);
 //        oracle: the converted matcher that comes back is the one of the matcher asked for
+//   o.mc.conc <lru size> <all|re> <g|p> <rounds> <callers: matchers ;-joined>
+//        the same cache under concurrent misses: one goroutine per caller, all released together, calling
+//        GetOrSet (g) or MatchersToPromMatchersCached (p); the conversion callback waits at a barrier until
+//        every distinct matcher's conversion has started (or 25 ms), so the lookups overlap; `all|re`: every
+//        matcher is cacheable | only regular-expression matchers (the default); several rounds on one cache.
+//        oracle: every caller gets the conversion of ITS matcher (name, type, value) -> callers=<n> wrong=<n>
 
 func init() {
 	props = append(props, &hlib.Prop{ID: "C13", Gen: genC13, Exec: execC13})
@@ -362,6 +370,11 @@ func execC13(c *hlib.Ctx, tok []string) string {
 			return "bad-op"
 		}
 		return c13MatcherCacheFlow(c, tok[1], tok[2])
+	case "o.mc.conc":
+		if len(tok) != 6 {
+			return "bad-op"
+		}
+		return c13MatcherCacheConc(c, tok[1], tok[2], tok[3], tok[4], tok[5])
 	}
 	return "bad-op"
 }
@@ -565,6 +578,99 @@ func c13MatcherCacheFlow(c *hlib.Ctx, storedTok, probedTok string) string {
 	return fmt.Sprintf("hits=%d", hits)
 }
 
+// c13BarrierCache passes GetOrSet on to the real cache with a conversion callback that first waits at
+// the barrier: this is how MatchersToPromMatchersCached (which brings its own callback) is made to overlap.
+type c13BarrierCache struct {
+	real storecache.MatchersCache
+	wait func()
+}
+
+func (b *c13BarrierCache) GetOrSet(m storecache.ConversionLabelMatcher, newItem storecache.NewItemFunc) (*labels.Matcher, error) {
+	return b.real.GetOrSet(m, func() (*labels.Matcher, error) { b.wait(); return newItem() })
+}
+
+func c13MatcherCacheConc(c *hlib.Ctx, sizeTok, cacheable, api, roundsTok, callersTok string) string {
+	size, err1 := strconv.Atoi(sizeTok)
+	rounds, err2 := strconv.Atoi(roundsTok)
+	callers, ok := parseC13Matchers(callersTok)
+	if err1 != nil || err2 != nil || !ok || size < 1 || rounds < 1 || rounds > 8 || len(callers) < 1 || len(callers) > 32 ||
+		(cacheable != "all" && cacheable != "re") || (api != "g" && api != "p") {
+		return "bad-op"
+	}
+	opts := []storecache.MatcherCacheOption{storecache.WithSize(size)}
+	if cacheable == "all" {
+		opts = append(opts, storecache.WithIsCacheableFunc(func(storecache.ConversionLabelMatcher) bool { return true }))
+	}
+	mc, err := storecache.NewMatchersCache(opts...)
+	if err != nil {
+		return "bad-op"
+	}
+	distinct := map[c13Matcher]struct{}{}
+	for _, m := range callers {
+		distinct[m] = struct{}{}
+	}
+	wrong := 0
+	for round := 0; round < rounds; round++ {
+		var arrived atomic.Int64
+		target := int64(len(distinct))
+		wait := func() {
+			arrived.Add(1)
+			deadline := time.Now().Add(25 * time.Millisecond)
+			for arrived.Load() < target && time.Now().Before(deadline) {
+				time.Sleep(200 * time.Microsecond)
+			}
+		}
+		type answer struct {
+			got *labels.Matcher
+			err error
+		}
+		answers := make([]answer, len(callers))
+		start := make(chan struct{})
+		var wg sync.WaitGroup
+		for i, m := range callers {
+			wg.Add(1)
+			go func(i int, m c13Matcher) {
+				defer wg.Done()
+				<-start
+				if api == "g" {
+					got, err := mc.GetOrSet(pbMatcher{m}.lm(), func() (*labels.Matcher, error) {
+						wait()
+						return &labels.Matcher{Type: labels.MatchType(m.t), Name: m.n, Value: m.v}, nil
+					})
+					answers[i] = answer{got, err}
+					return
+				}
+				res, err := storecache.MatchersToPromMatchersCached(&c13BarrierCache{real: mc, wait: wait}, *pbMatcher{m}.lm())
+				if err == nil && len(res) == 1 {
+					answers[i] = answer{res[0], nil}
+				} else {
+					answers[i] = answer{nil, fmt.Errorf("%d results, %v", len(res), err)}
+				}
+			}(i, m)
+		}
+		close(start)
+		wg.Wait()
+		for i, m := range callers {
+			a := answers[i]
+			if a.err != nil {
+				// a value that is not a regular expression cannot be converted: the direct conversion fails as well
+				if _, derr := storepb.MatcherToPromMatcher(*pbMatcher{m}.lm()); api == "p" && derr != nil {
+					continue
+				}
+				wrong++
+				c.Violation("matcher-inflight-error", fmt.Sprintf("round %d: the conversion of %s fails: %v", round, describeM(m), a.err))
+				continue
+			}
+			if int(a.got.Type) != m.t || a.got.Name != m.n || a.got.Value != m.v {
+				wrong++
+				c.Violation("matcher-inflight-cross-answer", fmt.Sprintf("round %d, %d concurrent callers, cache size %d: the conversion of %s is answered with {%q %s %q}",
+					round, len(callers), size, describeM(m), a.got.Name, a.got.Type, a.got.Value))
+			}
+		}
+	}
+	return fmt.Sprintf("callers=%d wrong=%d", len(callers), wrong)
+}
+
 var opStr = []string{"=", "!=", "=~", "!~"}
 
 func describeM(m c13Matcher) string { return fmt.Sprintf("{%q %s %q}", m.n, opStr[m.t], m.v) }
@@ -683,6 +789,58 @@ func doKey(c *hlib.Ctx, r *hlib.Rand, it c13Item) {
 	c.Do(fmt.Sprintf("key %s %s %s", it.tok(), qt, table(hashB64, sh)), true)
 }
 
+// c13GenConc: concurrent misses of the matchers cache by different matchers that share the value string.
+func c13GenConc(c *hlib.Ctx) {
+	r := c.R
+	for i := 0; i < c.N(36, 240); i++ {
+		v := r.Pick([]string{"x", "a.*", "foo|bar", ".+", "[0-9]+", "prod-.*", "", "a"})
+		n := r.Pick([]string{"job", "instance", "a", "__name__", "zone"})
+		n2 := r.Pick([]string{"job2", "b", "le", "pod"})
+		var ms []c13Matcher
+		shape := r.Intn(6)
+		switch shape {
+		case 0: // same value, different label name
+			ms = []c13Matcher{{2, n, v}, {2, n2, v}}
+			c.Count("conc:same-value-other-name")
+		case 1: // same name and value, opposite polarity
+			ms = []c13Matcher{{2, n, v}, {3, n, v}}
+			c.Count("conc:re-vs-nre")
+		case 2: // equality and regular expression with the same string
+			ms = []c13Matcher{{0, n, v}, {2, n, v}, {1, n, v}, {3, n, v}}
+			c.Count("conc:all-four-types")
+		case 3: // a crowd: several names x several types on one value, with repeated callers
+			for k := r.Range(3, 8); k > 0; k-- {
+				ms = append(ms, c13Matcher{[]int{2, 3, 2, 3, 0, 1}[r.Intn(6)], r.Pick([]string{n, n2, "c"}), v})
+			}
+			c.Count("conc:crowd")
+		case 4: // the same matcher several times (sharing is right here) next to one with another name
+			ms = []c13Matcher{{2, n, v}, {2, n, v}, {2, n, v}, {3, n2, v}}
+			c.Count("conc:legit-sharing-plus-one")
+		default: // name/value boundary shapes of the key, concurrently
+			s := c13Str(r, 3) + "ab"
+			j := 1 + r.Intn(len(s)-1)
+			ms = []c13Matcher{{2, s[:j], s[j:]}, {2, s[:1], s[1:]}, {3, s[:j], s[j:]}}
+			c.Count("conc:boundary")
+		}
+		{
+			perm, sh := r.Perm(len(ms)), make([]c13Matcher, len(ms))
+			for a, b := range perm {
+				sh[a] = ms[b]
+			}
+			ms = sh
+		}
+		size := []int{1, 2, 1000}[r.Intn(3)]
+		cacheable := []string{"all", "re"}[r.Intn(2)]
+		api := []string{"g", "g", "p"}[r.Intn(3)]
+		if shape == 5 {
+			api = "g" // arbitrary bytes are not regular expressions
+		}
+		c.Count(fmt.Sprintf("conc:lru-size-%d", size))
+		c.Count("conc:api-" + api)
+		c.Do(fmt.Sprintf("o.mc.conc %d %s %s %d %s", size, cacheable, api, r.Range(1, 3), msTok(ms)), true)
+	}
+}
+
 func genC13(c *hlib.Ctx) {
 	r := c.R
 	var blocks []string
@@ -694,6 +852,7 @@ func genC13(c *hlib.Ctx) {
 		_ = id.SetEntropy(e[:])
 		blocks = append(blocks, id.String())
 	}
+	c13GenConc(c)
 	rounds := c.N(8000, 60000)
 	for round := 0; round < rounds; round++ {
 		// ---- postings: two ways of cutting one string at a ':' (the collision shape), and random pairs
